@@ -18,6 +18,9 @@ pub struct Msg {
     pub props: Option<Props>,
     /// topic name is not a valid MQTT topic name (contains a wildcard): matching is unspecified
     pub wild_topic: bool,
+    /// the model cannot tell whether the broker accepted it (sent by a misbehaving client after a
+    /// point where the broker's reaction is not predictable): delivery is optional
+    pub maybe: bool,
 }
 
 #[derive(Clone, Copy, Debug, PartialEq, Eq)]
@@ -29,6 +32,13 @@ pub enum M3 {
 
 /// Does an accepted message belong to a subscription's stream?
 pub fn match3(msg: &Msg, filter: &str) -> M3 {
+    if msg.maybe {
+        return if !msg.wild_topic && ref_valid_filter(filter) && !ref_matches(&msg.topic, filter) {
+            M3::No
+        } else {
+            M3::Maybe
+        };
+    }
     if msg.wild_topic || !ref_valid_filter(filter) {
         // outside the domain of the reference matcher: delivery is unspecified
         return M3::Maybe;
@@ -140,6 +150,8 @@ pub struct WillMsg {
     pub qos: u8,
     pub retain: bool,
     pub serial: u64,
+    /// the broker may or may not still hold it (DISCONNECT after an unpredictable point)
+    pub maybe: bool,
 }
 
 #[derive(Clone, Debug, PartialEq, Eq)]
@@ -247,6 +259,8 @@ pub struct Model {
     pub serial_counter: u64,
     /// will publications that happened: (client id, acceptance index)
     pub wills_fired: Vec<(String, usize)>,
+    /// while set, accepted publishes are recorded as optional (`Msg::maybe`)
+    pub accept_uncertain: bool,
 }
 
 pub fn split_share(filter: &str) -> (Option<String>, String) {
@@ -274,6 +288,7 @@ impl Model {
             filter_bytes: HashMap::new(),
             serial_counter: 0,
             wills_fired: Vec::new(),
+            accept_uncertain: false,
         }
     }
 
@@ -512,6 +527,7 @@ impl Model {
                 retain: false,
                 props: None,
                 wild_topic: ref_has_wildcards(&topic),
+                maybe: false,
             };
             if match3(&m, f) != M3::No {
                 let last = v.last().map(|x| x.1).unwrap_or(0);
@@ -526,7 +542,11 @@ impl Model {
             payload: payload.clone(),
             retain: *retain,
             props: stored_props,
+            maybe: self.accept_uncertain,
         });
+        if self.accept_uncertain && *retain {
+            self.retained_uncertain = true;
+        }
         self.mark_retention();
         Ok(())
     }
@@ -620,7 +640,38 @@ impl Model {
             return eff;
         }
         let mut close_after: Option<CloseWhy> = None;
+        let mut uncertain = false;
         for p in packets {
+            if uncertain {
+                // the broker may have stopped at the unpredictable packet or gone on: whatever
+                // this client published afterwards is optional, nothing is owed to it
+                self.accept_uncertain = true;
+                match &p {
+                    MPacket::Publish { qos: 2, .. } => self.conns[serial].qos2_recorded.push_back(p.clone()),
+                    MPacket::Publish { .. } => {
+                        let _ = self.accept(serial, &p);
+                    }
+                    MPacket::PubRel { .. } => {
+                        if let Some(publish) = self.conns[serial].qos2_recorded.pop_front() {
+                            let _ = self.accept(serial, &publish);
+                        }
+                    }
+                    MPacket::Subscribe { filters, sub_id, .. } => {
+                        for (f, q) in filters {
+                            self.subscribe(serial, f, *q, *sub_id);
+                        }
+                    }
+                    MPacket::Disconnect => {
+                        let id = self.conns[serial].client_id.clone();
+                        if let Some(w) = self.wills.get_mut(&id) {
+                            w.maybe = true;
+                        }
+                    }
+                    _ => {}
+                }
+                self.accept_uncertain = false;
+                continue;
+            }
             match &p {
                 MPacket::Publish { qos, pkid, .. } => match qos {
                     2 => {
@@ -712,7 +763,8 @@ impl Model {
                             // nothing the client drained is unacknowledged; the broker may
                             // still hold undrained forwards, so its reaction is not predictable
                             eff.unknown = true;
-                            break;
+                            uncertain = true;
+                            continue;
                         }
                     }
                 }
@@ -830,7 +882,9 @@ impl Model {
             // a will is accepted like a publish from nobody: use a scratch connection entry
             let scratch = self.conns.len();
             self.conns.push(MConn::scratch(scratch));
+            self.accept_uncertain = w.maybe;
             let _ = self.accept(scratch, &p);
+            self.accept_uncertain = false;
             self.conns.pop();
             if self.log.len() > idx {
                 self.wills_fired.push((client_id.to_string(), idx));
